@@ -144,6 +144,30 @@ func (e *Env) symVal(sy *Symbol) Val {
 	if v, ok := e.Over[sy]; ok {
 		return v
 	}
+	if sy.Kind == SIter && sy.Loop != nil && sy.Loop.Bound != nil {
+		// iteration counters range over the whole iteration space, with the ends over-represented
+		b := e.Eval(sy.Loop.Bound)
+		if b.K == TInt && b.I > 0 {
+			h := h64(e.Seed, "iter", e.canonOf(sy))
+			var v int64
+			switch h % 8 {
+			case 0:
+				v = 0
+			case 1:
+				v = b.I - 1
+			case 2:
+				v = b.I - 2
+			case 3:
+				v = 1
+			default:
+				v = int64(h64(h) % uint64(b.I))
+			}
+			if v < 0 {
+				v = 0
+			}
+			return Val{K: TInt, I: v}
+		}
+	}
 	return e.randFor(e.canonOf(sy), sy.Ty)
 }
 
@@ -541,9 +565,14 @@ func (e *Env) evalCall(t *Term) Val {
 
 // ---- comparison ----
 
+var exactFloat = false
+
 func closeF(a, b float64) bool {
 	if a == b {
 		return true
+	}
+	if exactFloat {
+		return math.IsNaN(a) && math.IsNaN(b)
 	}
 	if math.IsNaN(a) && math.IsNaN(b) {
 		return true
